@@ -86,7 +86,9 @@ class Ctx:
                 os.remove(old)
         for v in seen_known:
             print("KNOWN-FINDING: property=%s %s — %s" % (self.prop, v["key"], known_keys[v["key"]].get("what", v["detail"])))
-        for i, v in enumerate(new):
+        if len(new) > 25:
+            print("(%d violations; the first 25 are listed, all keys are in the evidence file)" % len(new))
+        for i, v in enumerate(new[:25]):
             rp = os.path.join(EVID, "replay", "%s-%d.json" % (self.prop, i))
             with open(rp, "w") as fh:
                 json.dump({"property": self.prop, "key": v["key"], "rule": v["rule"], "detail": v["detail"],
